@@ -25,11 +25,11 @@ use std::path::{Path, PathBuf};
 use std::sync::atomic::{AtomicU64, AtomicUsize, Ordering};
 use std::sync::{Arc, Mutex};
 use zipora::blob_store::{
-    BlobStore, IterableBlobStore, PlainBlobStore, ZReorderMap, ZReorderMapBuilder, ZipOffsetBlobStore,
+    BatchBlobStore, BlobStore, IterableBlobStore, PlainBlobStore, ZReorderMap, ZReorderMapBuilder, ZipOffsetBlobStore,
     ZipOffsetBlobStoreBuilder, ZipOffsetBlobStoreConfig,
 };
 use zipora::compression::dict_zip::{SuffixArrayDictionary, SuffixArrayDictionaryConfig};
-use zipora::io::{DataInput, DataOutput, FileDataOutput, MemoryMappedInput, MemoryMappedOutput, MmapDataInput};
+use zipora::io::{AccessPattern, DataInput, DataOutput, FileDataOutput, MemoryMappedInput, MemoryMappedOutput, MmapDataInput};
 use zipora::memory::{MmapVec, MmapVecConfig};
 use zv::*;
 
@@ -129,6 +129,31 @@ static CLAIM: AtomicU64 = AtomicU64::new(u64::MAX);
 /// last maximal run (start, len) of the values a run-length subject yielded; len 0 = none
 static TAIL: [AtomicU64; 2] = [AtomicU64::new(0), AtomicU64::new(0)];
 
+/// What a CONTINUATION observed: the undamaged image of a sync point is opened (in some open mode /
+/// configuration), used further (appends only: push / put / write), closed and opened again.
+struct Resumed {
+    mode: String,
+    /// the open mode allows changes
+    writable: bool,
+    /// the structure hands out record ids
+    has_ids: bool,
+    /// full logical content right after the first open
+    c0: Vec<u8>,
+    ids0: Vec<u32>,
+    new_ids: Vec<u32>,
+    /// len() after the open, after the appends; number of appended elements / records / bytes
+    len0: usize,
+    len1: usize,
+    added: usize,
+    /// what was stored before (the records / elements / bytes present at the open), read right after
+    /// the open and again after the appends
+    old0: Vec<u8>,
+    old1: Vec<u8>,
+    /// full content of the live object after the appends + sync, and of a second open after closing it
+    live: Vec<u8>,
+    again: Result<Vec<u8>, String>,
+}
+
 trait Subject: Send + Sync {
     fn fam(&self) -> &'static str;
     fn variant(&self) -> String;
@@ -146,10 +171,44 @@ trait Subject: Send + Sync {
             512
         }
     }
+    /// every-byte truncation of every small file at EVERY sync snapshot (directory stores: each record
+    /// file is written once, at the sync point of its put)
+    fn dense_small_files(&self) -> usize {
+        0
+    }
     /// perform a seeded history on the real structure inside `rec.live`
     fn drive(&self, rng: &mut Rng, rec: &mut Recorder, big: bool);
     /// open what is in `dir`, read everything readable: Ok((logical content, bytes of the file the reads touch))
     fn reopen(&self, dir: &Path) -> Reopened;
+    /// open modes / configurations the continuation cycles through (by snapshot index)
+    fn modes(&self) -> Vec<&'static str> {
+        vec!["ro"]
+    }
+    /// continuation on the undamaged image in `dir`; Err = the open itself failed.
+    /// Default (read-only structures): open, read everything, open again, read everything.
+    fn resume(&self, dir: &Path, mode: &str, _rng: &mut Rng) -> Result<Resumed, String> {
+        let c0 = self.reopen(dir)?.0;
+        let again = self.reopen(dir).map(|x| x.0);
+        Ok(Resumed {
+            mode: mode.to_string(),
+            writable: false,
+            has_ids: false,
+            ids0: vec![],
+            new_ids: vec![],
+            len0: 0,
+            len1: 0,
+            added: 0,
+            old0: c0.clone(),
+            old1: c0.clone(),
+            live: c0.clone(),
+            c0,
+            again,
+        })
+    }
+}
+
+fn ids_json(v: &[u32]) -> Value {
+    Value::Array(v.iter().map(|&x| json!(x)).collect())
 }
 
 fn es<E: std::fmt::Display>(e: E) -> String {
@@ -160,7 +219,7 @@ fn es<E: std::fmt::Display>(e: E) -> String {
 
 // ---- MmapVec<T>
 
-trait Elem: Copy + Send + Sync + 'static {
+trait Elem: Copy + PartialEq + Send + Sync + 'static {
     const NAME: &'static str;
     fn gen(r: &mut Rng) -> Self;
     fn put(&self, out: &mut Vec<u8>);
@@ -209,9 +268,20 @@ impl Elem for [u8; 24] {
 /// `.1`: MmapVecConfig::sync_on_write (every mutating call rewrites the file)
 struct MV<T>(PhantomData<T>, bool);
 
+/// logical content: len(), is_empty() and every element (what the object reports about itself
+/// is part of what a reopened object must present again)
 fn mv_content<T: Elem>(v: &MmapVec<T>) -> Vec<u8> {
     let mut o = Vec::new();
+    o.extend_from_slice(&(v.len() as u64).to_le_bytes());
+    o.push(v.is_empty() as u8);
     for x in v.as_slice() {
+        x.put(&mut o);
+    }
+    o
+}
+fn mv_elems<T: Elem>(v: &MmapVec<T>, n: usize) -> Vec<u8> {
+    let mut o = Vec::new();
+    for x in v.as_slice().iter().take(n) {
         x.put(&mut o);
     }
     o
@@ -236,7 +306,13 @@ impl<T: Elem> Subject for MV<T> {
         let path = rec.live.join("vec.mmap");
         let c0 = if big { 2048 } else { *rng.pick(&[4usize, 16, 48]) };
         let g = *rng.pick(&[1.5f64, 2.0, 1.618]);
-        let cfg = MmapVecConfig::builder().with_initial_capacity(c0).with_growth_factor(g).with_sync_on_write(self.1).build();
+        let cfg = MmapVecConfig::builder()
+            .with_initial_capacity(c0)
+            .with_growth_factor(g)
+            .with_sync_on_write(self.1)
+            .with_populate_pages(rng.chance(1, 2))
+            .with_huge_pages(rng.chance(1, 3))
+            .build();
         let mut v = match MmapVec::<T>::create(&path, cfg.clone()) {
             Ok(v) => v,
             Err(_) => return,
@@ -246,7 +322,46 @@ impl<T: Elem> Subject for MV<T> {
         let scale = if big { 20000 } else { 40 };
         for phase in 0..2 {
             for i in 0..nops {
-                let (name, sync) = match if i == 0 { 1 } else { rng.below(13) } {
+                let (name, sync) = match if i == 0 { 1 } else { rng.below(18) } {
+                    13 => {
+                        // the other write paths: bulk push / bulk pop / range fill / mutable slice
+                        let n = rng.range(1, scale) as usize;
+                        let items: Vec<T> = (0..n).map(|_| T::gen(rng)).collect();
+                        let _ = v.push_bulk_simd(&items);
+                        ("push_bulk_simd", false)
+                    }
+                    14 => {
+                        let n = rng.below(v.len() as u64 / 2 + 1) as usize;
+                        let _ = v.pop_bulk_simd(n);
+                        ("pop_bulk_simd", false)
+                    }
+                    15 => {
+                        let n = v.len();
+                        if n > 0 {
+                            let a = rng.below(n as u64) as usize;
+                            let b = a + rng.below((n - a) as u64 + 1) as usize;
+                            let _ = v.fill_range_simd(a..b, T::gen(rng));
+                        }
+                        ("fill_range_simd", false)
+                    }
+                    16 => {
+                        for x in v.as_mut_slice().iter_mut().step_by(3) {
+                            *x = T::gen(rng);
+                        }
+                        ("as_mut_slice", false)
+                    }
+                    17 => {
+                        // copy the whole content of another (scratch) vector
+                        let donor_path = rec.run_dir.join("donor.mmap");
+                        if let Ok(mut d) = MmapVec::<T>::create(&donor_path, MmapVecConfig::builder().with_initial_capacity(8).build()) {
+                            for _ in 0..rng.range(0, scale / 2) {
+                                let _ = d.push(T::gen(rng));
+                            }
+                            let _ = v.copy_from_simd(&d);
+                        }
+                        let _ = fs::remove_file(&donor_path);
+                        ("copy_from_simd", false)
+                    }
                     0 => {
                         // one push per recorded operation: a push that grows the file makes the state
                         // before it durable, which must be an operation boundary of the history
@@ -329,9 +444,10 @@ impl<T: Elem> Subject for MV<T> {
         let v = MmapVec::<T>::open(dir.join("vec.mmap"), MmapVecConfig::default()).map_err(es)?;
         let st = v.stats();
         let n = v.len();
-        let mut o = Vec::with_capacity(n.min(1 << 24) * st.element_size);
-        for x in v.as_slice() {
-            x.put(&mut o);
+        let o = mv_content(&v);
+        // a range of the vector compares equal to itself
+        if n > 0 && !v.compare_range_simd(0..n, &v).unwrap_or(false) {
+            return Err("compare_range_simd(0..len, self) is not true".into());
         }
         // the element API must agree with the slice view at the ends
         if n > 0 {
@@ -346,6 +462,57 @@ impl<T: Elem> Subject for MV<T> {
         }
         CLAIM.store((st.header_size + st.capacity * st.element_size) as u64, Ordering::SeqCst);
         Ok((o, Some((st.header_size + n * st.element_size) as u64)))
+    }
+    fn modes(&self) -> Vec<&'static str> {
+        vec!["rw", "ro", "large_dataset", "persistent_cache", "ro_builder", "performance_optimized", "memory_optimized", "realtime", "create"]
+    }
+    fn resume(&self, dir: &Path, mode: &str, rng: &mut Rng) -> Result<Resumed, String> {
+        let path = dir.join("vec.mmap");
+        let cfg = match mode {
+            "ro" => MmapVecConfig::read_only(),
+            "ro_builder" => MmapVecConfig::builder().with_read_only(true).build(),
+            "large_dataset" => MmapVecConfig::large_dataset(),
+            "persistent_cache" => MmapVecConfig::persistent_cache(),
+            "performance_optimized" => MmapVecConfig::performance_optimized(),
+            "memory_optimized" => MmapVecConfig::memory_optimized(),
+            "realtime" => MmapVecConfig::realtime(),
+            _ => MmapVecConfig::default(),
+        };
+        let writable = !cfg.read_only;
+        let mut v = if mode == "create" {
+            // create-new over the existing file: a new, empty vector
+            MmapVec::<T>::create(&path, MmapVecConfig::builder().with_initial_capacity(8).build()).map_err(es)?
+        } else {
+            MmapVec::<T>::open(&path, cfg).map_err(es)?
+        };
+        let c0 = mv_content(&v);
+        let len0 = v.len();
+        let old0 = mv_elems(&v, len0);
+        // appends only: what was stored before must keep its place and its bytes
+        let mut added = 0usize;
+        for _ in 0..rng.range(1, 3) {
+            if v.push(T::gen(rng)).is_ok() {
+                added += 1;
+            }
+        }
+        let items: Vec<T> = (0..rng.range(1, 40)).map(|_| T::gen(rng)).collect();
+        if v.extend(items.clone()).is_ok() {
+            added += items.len();
+        }
+        if v.push_bulk_simd(&items[..items.len() / 2]).is_ok() {
+            added += items.len() / 2;
+        }
+        let target = v.len() + 2;
+        if v.resize(target, T::gen(rng)).is_ok() && writable {
+            added += 2;
+        }
+        let _ = v.sync();
+        let len1 = v.len();
+        let old1 = mv_elems(&v, len0);
+        let live = mv_content(&v);
+        drop(v);
+        let again = MmapVec::<T>::open(&path, MmapVecConfig::default()).map(|w| mv_content(&w)).map_err(es);
+        Ok(Resumed { mode: mode.into(), writable, has_ids: false, c0, ids0: vec![], new_ids: vec![], len0, len1, added, old0, old1, live, again })
     }
 }
 
@@ -368,8 +535,46 @@ fn store_content<S: BlobStore>(st: &S, ids: Vec<u32>) -> Vec<u8> {
     }
     o
 }
+/// logical content of a directory store: len(), every id with its record (get), size() and
+/// contains() of every id, the batch read twin, and the statistics a reopened store derives
 fn plain_content(st: &PlainBlobStore) -> Vec<u8> {
-    store_content(st, st.iter_ids().collect())
+    let ids: Vec<u32> = st.iter_ids().collect();
+    let mut o = store_content(st, ids.clone());
+    for &id in &ids {
+        o.push(st.contains(id) as u8);
+        let sz = st.size(id).ok().flatten().map(|x| x as u64).unwrap_or(u64::MAX);
+        o.extend_from_slice(&sz.to_le_bytes());
+    }
+    if let Ok(batch) = st.get_batch(ids.clone()) {
+        for r in batch {
+            match r {
+                Some(d) => o.extend_from_slice(&digest_bytes(&d)),
+                None => o.push(0xEE),
+            }
+        }
+    }
+    let stt = st.stats();
+    o.extend_from_slice(&(stt.blob_count as u64).to_le_bytes());
+    o.extend_from_slice(&(stt.total_size as u64).to_le_bytes());
+    o
+}
+fn digest_bytes(d: &[u8]) -> Vec<u8> {
+    digest(d).to_string().into_bytes()
+}
+/// the records of `ids` only (what was stored before a continuation)
+fn plain_records(st: &PlainBlobStore, ids: &[u32]) -> Vec<u8> {
+    let mut o = Vec::new();
+    for &id in ids {
+        o.extend_from_slice(&id.to_le_bytes());
+        match st.get(id) {
+            Ok(d) => {
+                o.extend_from_slice(&(d.len() as u64).to_le_bytes());
+                o.extend_from_slice(&d);
+            }
+            Err(_) => o.extend_from_slice(&u64::MAX.to_le_bytes()),
+        }
+    }
+    o
 }
 
 impl Subject for Plain {
@@ -388,11 +593,13 @@ impl Subject for Plain {
         rec.snap("new", true, Some(plain_content(&st)), vec![]);
         let sizes: &[usize] = if big { &[0, 1, 700, 5000, 20000, 70000] } else { &[0, 1, 17, 300, 700, 1400, 2100] };
         let mut ids: Vec<u32> = vec![];
-        let nops = if big { 8 } else { 7 + rng.below(4) as usize };
+        let nops = if big { 8 } else { 8 + rng.below(4) as usize };
         for i in 0..nops {
-            match if i < 2 { 0 } else { rng.below(8) } {
+            // records of length 0 and 1 at the lowest and at the highest id
+            let forced = if i == 0 { Some(rng.below(2) as usize) } else if i + 1 == nops || i == nops / 2 { Some(rng.below(2) as usize) } else { None };
+            match if forced.is_some() { 0 } else { rng.below(10) } {
                 0..=4 => {
-                    let n = *rng.pick(sizes);
+                    let n = forced.unwrap_or_else(|| *rng.pick(sizes));
                     let data: Vec<u8> = rng.bytes(n).into_iter().map(|b| b | 1).collect();
                     let r = st.put(&data);
                     if let Ok(id) = r {
@@ -401,12 +608,31 @@ impl Subject for Plain {
                     // put fsyncs the record file: a sync point
                     rec.snap("put", r.is_ok(), Some(plain_content(&st)), vec![]);
                 }
-                5 | 6 => {
+                5 => {
+                    let blobs: Vec<Vec<u8>> = (0..rng.range(1, 3)).map(|_| {
+                        let n = *rng.pick(sizes);
+                        rng.bytes(n).into_iter().map(|b| b | 1).collect()
+                    }).collect();
+                    let r = st.put_batch(blobs);
+                    if let Ok(v) = &r {
+                        ids.extend(v.iter().copied());
+                    }
+                    rec.snap("put_batch", r.is_ok(), Some(plain_content(&st)), vec![]);
+                }
+                6 | 7 => {
                     if !ids.is_empty() {
                         let id = ids.remove(rng.below(ids.len() as u64) as usize);
                         let _ = st.remove(id);
                     }
                     rec.snap("remove", false, Some(plain_content(&st)), vec![]);
+                }
+                8 => {
+                    if ids.len() >= 2 {
+                        let a = ids.remove(rng.below(ids.len() as u64) as usize);
+                        let b = ids.remove(rng.below(ids.len() as u64) as usize);
+                        let _ = st.remove_batch(vec![a, b]);
+                    }
+                    rec.snap("remove_batch", false, Some(plain_content(&st)), vec![]);
                 }
                 _ => {
                     drop(st);
@@ -421,7 +647,44 @@ impl Subject for Plain {
     }
     fn reopen(&self, dir: &Path) -> Reopened {
         let st = PlainBlobStore::new(dir).map_err(es)?;
+        if st.base_dir() != dir {
+            return Err("base_dir() differs from the directory opened".into());
+        }
         Ok((plain_content(&st), None))
+    }
+    fn modes(&self) -> Vec<&'static str> {
+        vec!["rw", "rw", "rw", "create"]
+    }
+    fn dense_small_files(&self) -> usize {
+        1500
+    }
+    fn resume(&self, dir: &Path, mode: &str, rng: &mut Rng) -> Result<Resumed, String> {
+        let mut st = if mode == "create" {
+            PlainBlobStore::create_new(dir).map_err(es)?
+        } else {
+            PlainBlobStore::new(dir).map_err(es)?
+        };
+        let c0 = plain_content(&st);
+        let ids0: Vec<u32> = st.iter_ids().collect();
+        let len0 = st.len();
+        let old0 = plain_records(&st, &ids0);
+        let mut new_ids = vec![];
+        for i in 0..rng.range(1, 3) {
+            let n = if i == 0 { *rng.pick(&[0usize, 1, 5, 300]) } else { rng.range(0, 600) as usize };
+            let data: Vec<u8> = rng.bytes(n).into_iter().map(|b| b | 1).collect();
+            if let Ok(id) = st.put(&data) {
+                new_ids.push(id);
+            }
+        }
+        if let Ok(v) = st.put_batch(vec![vec![7u8; 3], vec![]]) {
+            new_ids.extend(v);
+        }
+        let len1 = st.len();
+        let old1 = plain_records(&st, &ids0);
+        let live = plain_content(&st);
+        drop(st);
+        let again = PlainBlobStore::new(dir).map(|s2| plain_content(&s2)).map_err(es);
+        Ok(Resumed { mode: mode.into(), writable: true, has_ids: true, c0, ids0, added: new_ids.len(), new_ids, len0, len1, old0, old1, live, again })
     }
 }
 
@@ -446,6 +709,9 @@ impl Subject for ZipOff {
             let cfg = match self.0 {
                 "raw" => ZipOffsetBlobStoreConfig { compress_level: 0, checksum_level: 0, ..Default::default() },
                 "crc" => ZipOffsetBlobStoreConfig { compress_level: 0, checksum_level: 2, ..Default::default() },
+                "perf" => ZipOffsetBlobStoreConfig::performance_optimized(),
+                "comp" => ZipOffsetBlobStoreConfig::compression_optimized(),
+                "writer" => ZipOffsetBlobStoreConfig::security_optimized(),
                 _ => ZipOffsetBlobStoreConfig::default(),
             };
             let mut b = match ZipOffsetBlobStoreBuilder::with_config(cfg) {
@@ -460,12 +726,24 @@ impl Subject for ZipOff {
                 Ok(s) => s,
                 Err(_) => return,
             };
-            let ok = st.save_to_file(&path).is_ok();
+            let ok = if self.0 == "writer" {
+                // the reader/writer twins of save_to_file / load_from_file
+                fs::File::create(&path).ok().map(|mut f| st.save_to_writer(&mut f).is_ok()).unwrap_or(false)
+            } else {
+                st.save_to_file(&path).is_ok()
+            };
             rec.snap("save", ok, Some(zo_content(&st)), vec![128]);
         }
     }
     fn reopen(&self, dir: &Path) -> Reopened {
-        let st = ZipOffsetBlobStore::load_from_file(dir.join("store.zob")).map_err(es)?;
+        let p = dir.join("store.zob");
+        let mut st = if self.0 == "writer" {
+            let mut f = fs::File::open(&p).map_err(es)?;
+            ZipOffsetBlobStore::load_from_reader(&mut f).map_err(es)?
+        } else {
+            ZipOffsetBlobStore::load_from_file(&p).map_err(es)?
+        };
+        st.enable_offset_cache();
         Ok((zo_content(&st), None))
     }
 }
@@ -482,8 +760,14 @@ fn reorder_content(path: &Path, sign: i64) -> Reopened {
     let mut n = 0u64;
     // projection of the output: its last maximal run of consecutive values (start, len)
     let (mut rs, mut rl, mut prev) = (0u64, 0u64, 0u64);
-    while let Some(v) = m.next() {
-        let v = v as u64;
+    while !m.eof() {
+        // position and value as reported before advancing
+        o.extend_from_slice(&(m.index() as u64).to_le_bytes());
+        o.extend_from_slice(&(m.current() as u64).to_le_bytes());
+        let v = match m.next() {
+            Some(v) => v as u64,
+            None => break,
+        };
         o.extend_from_slice(&v.to_le_bytes());
         if rl > 0 && v as i64 == prev as i64 + sign {
             rl += 1;
@@ -500,6 +784,21 @@ fn reorder_content(path: &Path, sign: i64) -> Reopened {
     // everything the reader reports about itself is part of the content
     o.extend_from_slice(&n.to_le_bytes());
     o.push(m.eof() as u8);
+    // rewind and read everything a second time
+    match m.rewind() {
+        Ok(()) => {
+            o.extend_from_slice(&(m.len() as u64).to_le_bytes());
+            let mut k = 0u64;
+            while let Some(v) = m.next() {
+                o.extend_from_slice(&(v as u64).to_le_bytes());
+                k += 1;
+                if k > (1 << 22) {
+                    break;
+                }
+            }
+        }
+        Err(_) => o.push(0xEE),
+    }
     TAIL[0].store(rs, Ordering::SeqCst);
     TAIL[1].store(rl, Ordering::SeqCst);
     Ok((o, None))
@@ -603,6 +902,51 @@ fn mmi_read_all(path: &Path) -> Reopened {
     }
     Ok((o, Some(n as u64)))
 }
+/// sequential hint + zero-copy reads (the buffered strategy of small files offers none: plain read)
+fn mmi_read_zero_copy(path: &Path) -> Reopened {
+    let mut r = MemoryMappedInput::from_path_with_pattern(path, AccessPattern::Sequential).map_err(es)?;
+    let n = r.len();
+    let mut o = Vec::with_capacity(n);
+    while r.remaining() > 0 {
+        let c = r.remaining().min(1000);
+        let zc = r.read_slice_zero_copy(c).map(|s| s.to_vec());
+        match zc {
+            Ok(d) => o.extend_from_slice(&d),
+            Err(_) => o.extend_from_slice(&r.read_slice(c).map_err(es)?),
+        }
+    }
+    if r.read_slice_zero_copy(1).is_ok() || r.read_u8().is_ok() {
+        return Err("read beyond the end succeeded".into());
+    }
+    Ok((o, Some(n as u64)))
+}
+/// random-access hint, peek + seek (peek is not offered by the buffered strategy: plain read)
+fn mmi_read_peek(path: &Path) -> Reopened {
+    let f = fs::File::open(path).map_err(es)?;
+    let mut r = MemoryMappedInput::new_with_pattern(f, AccessPattern::Random).map_err(es)?;
+    let _ = r.strategy();
+    let n = r.len();
+    let mut o = Vec::with_capacity(n);
+    while r.remaining() > 0 {
+        let c = r.remaining().min(613);
+        match r.peek_slice(c) {
+            Ok(d) => {
+                let z = r.peek_slice_zero_copy(c).map(|s| s.to_vec()).map_err(es)?;
+                if z != d {
+                    return Err("peek_slice and peek_slice_zero_copy differ".into());
+                }
+                let pos = r.position();
+                r.seek(pos + c).map_err(es)?;
+                o.extend_from_slice(&d);
+            }
+            Err(_) => o.extend_from_slice(&r.read_slice(c).map_err(es)?),
+        }
+    }
+    if r.seek(n + 1).is_ok() || r.peek_slice(1).is_ok() {
+        return Err("seek / peek beyond the end succeeded".into());
+    }
+    Ok((o, Some(n as u64)))
+}
 fn mdi_read_all(path: &Path) -> Reopened {
     let mut r = MmapDataInput::open(path).map_err(es)?;
     let n = r.len();
@@ -629,12 +973,12 @@ impl Subject for IoMmap {
     fn drive(&self, rng: &mut Rng, rec: &mut Recorder, big: bool) {
         let path = rec.live.join("stream.bin");
         let chunk = if big { 300_000 } else { 900 };
-        if self.0 == "mmo" {
+        if self.0.starts_with("mmo") {
             let mut out = match MemoryMappedOutput::create(&path, rng.range(16, 2048) as usize) {
                 Ok(o) => o,
                 Err(_) => return,
             };
-            rec.snap("create", false, mmi_read_all(&path).ok().map(|x| x.0), vec![]);
+            rec.snap("create", false, self.read(&path).ok().map(|x| x.0), vec![]);
             for _ in 0..(6 + rng.below(4)) {
                 match rng.below(6) {
                     0..=2 => {
@@ -642,77 +986,195 @@ impl Subject for IoMmap {
                         let d: Vec<u8> = rng.bytes(n).into_iter().map(|b| b | 1).collect();
                         let _ = out.write_slice(&d);
                         let pos = out.position();
-                        rec.snap("write", false, mmi_read_all(&path).ok().map(|x| x.0), vec![pos]);
+                        rec.snap("write", false, self.read(&path).ok().map(|x| x.0), vec![pos]);
                     }
                     3 => {
                         let _ = out.write_u32(rng.next() as u32 | 1);
                         let _ = out.write_length_prefixed_string("zipora");
                         let pos = out.position();
-                        rec.snap("write", false, mmi_read_all(&path).ok().map(|x| x.0), vec![pos]);
+                        rec.snap("write", false, self.read(&path).ok().map(|x| x.0), vec![pos]);
                     }
                     4 => {
                         let ok = out.flush().is_ok();
                         let pos = out.position();
-                        rec.snap("flush", ok, mmi_read_all(&path).ok().map(|x| x.0), vec![pos]);
+                        rec.snap("flush", ok, self.read(&path).ok().map(|x| x.0), vec![pos]);
                     }
                     _ => {
                         let ok = out.truncate().is_ok();
-                        rec.snap("truncate", ok, mmi_read_all(&path).ok().map(|x| x.0), vec![]);
+                        rec.snap("truncate", ok, self.read(&path).ok().map(|x| x.0), vec![]);
                     }
                 }
             }
             let ok = out.truncate().is_ok() && out.flush().is_ok();
-            rec.snap("finish", ok, mmi_read_all(&path).ok().map(|x| x.0), vec![]);
+            rec.snap("finish", ok, self.read(&path).ok().map(|x| x.0), vec![]);
         } else {
             let mut out = match FileDataOutput::create(&path) {
                 Ok(o) => o,
                 Err(_) => return,
             };
-            rec.snap("create", false, mdi_read_all(&path).ok().map(|x| x.0), vec![]);
+            rec.snap("create", false, self.read(&path).ok().map(|x| x.0), vec![]);
             for _ in 0..(6 + rng.below(4)) {
                 match rng.below(5) {
                     0..=2 => {
                         let n = rng.range(1, chunk) as usize;
                         let d: Vec<u8> = rng.bytes(n).into_iter().map(|b| b | 1).collect();
                         let _ = out.write_bytes(&d);
-                        rec.snap("write", false, mdi_read_all(&path).ok().map(|x| x.0), vec![]);
+                        rec.snap("write", false, self.read(&path).ok().map(|x| x.0), vec![]);
                     }
                     3 => {
                         let _ = out.write_u64(rng.next() | 1);
                         let _ = out.write_var_int(rng.next() >> 20);
-                        rec.snap("write", false, mdi_read_all(&path).ok().map(|x| x.0), vec![]);
+                        rec.snap("write", false, self.read(&path).ok().map(|x| x.0), vec![]);
                     }
                     _ => {
                         let ok = DataOutput::flush(&mut out).is_ok() && out.sync_all().is_ok();
-                        rec.snap("sync", ok, mdi_read_all(&path).ok().map(|x| x.0), vec![]);
+                        rec.snap("sync", ok, self.read(&path).ok().map(|x| x.0), vec![]);
                     }
                 }
             }
             let ok = DataOutput::flush(&mut out).is_ok() && out.sync_all().is_ok();
-            rec.snap("finish", ok, mdi_read_all(&path).ok().map(|x| x.0), vec![]);
+            rec.snap("finish", ok, self.read(&path).ok().map(|x| x.0), vec![]);
         }
     }
     fn reopen(&self, dir: &Path) -> Reopened {
-        let p = dir.join("stream.bin");
-        if self.0 == "mmo" {
-            mmi_read_all(&p)
+        self.read(&dir.join("stream.bin"))
+    }
+    fn modes(&self) -> Vec<&'static str> {
+        vec!["append"]
+    }
+    /// open the synced file for writing again, append at its end, flush, read back, reopen
+    fn resume(&self, dir: &Path, mode: &str, rng: &mut Rng) -> Result<Resumed, String> {
+        let path = dir.join("stream.bin");
+        let c0 = self.read(&path)?.0;
+        let len0 = c0.len();
+        let mut added = 0usize;
+        let chunks: Vec<Vec<u8>> = (0..rng.range(1, 3)).map(|_| {
+            let n = rng.range(1, 3000) as usize;
+            rng.bytes(n).into_iter().map(|b| b | 1).collect()
+        }).collect();
+        let live;
+        if self.0.starts_with("mmo") {
+            let mut out = MemoryMappedOutput::open(&path).map_err(es)?;
+            let end = out.capacity();
+            out.seek(end).map_err(es)?;
+            for c in &chunks {
+                if out.write_slice(c).is_ok() {
+                    added += c.len();
+                }
+            }
+            let _ = out.truncate();
+            let _ = out.flush();
+            live = self.read(&path).map(|x| x.0).unwrap_or_default();
         } else {
-            mdi_read_all(&p)
+            let mut out = zipora::io::to_file_append(&path).map_err(es)?;
+            for c in &chunks {
+                if out.write_bytes(c).is_ok() {
+                    added += c.len();
+                }
+            }
+            let _ = DataOutput::flush(&mut out);
+            let _ = out.sync_all();
+            if out.bytes_written() != (len0 + added) as u64 {
+                return Err("bytes_written() of the appending writer differs from the file length".into());
+            }
+            live = self.read(&path).map(|x| x.0).unwrap_or_default();
+        }
+        let again = self.read(&path).map(|x| x.0);
+        let old1 = live.get(..len0.min(live.len())).unwrap_or(&[]).to_vec();
+        Ok(Resumed { mode: mode.into(), writable: true, has_ids: false, old0: c0.clone(), c0, ids0: vec![], new_ids: vec![],
+            len0, len1: live.len(), added, old1, live, again })
+    }
+}
+
+impl IoMmap {
+    fn read(&self, p: &Path) -> Reopened {
+        match self.0 {
+            "mmo" => mmi_read_all(p),
+            "mmo-zc" => mmi_read_zero_copy(p),
+            "mmo-peek" => mmi_read_peek(p),
+            _ => mdi_read_all(p),
         }
     }
 }
 
 // ---- SuffixArrayDictionary (DictZip dictionary files)
 
-struct DzDict;
+/// variants: "sadict" save_to_file / load_from_file, "serde" serialize / deserialize through a file,
+/// "store" DictZipBlobStore::save_dictionary / from_dictionary_file / load_dictionary
+struct DzDict(&'static str);
 
-fn dict_content(d: &SuffixArrayDictionary) -> Vec<u8> {
+/// logical content of a dictionary: its text, its pattern-length configuration and what it answers
+/// (longest match / all matches of probes cut from its own text and of a foreign string)
+fn dict_content(d: &mut SuffixArrayDictionary) -> Vec<u8> {
     let mut o = Vec::new();
     o.extend_from_slice(&(d.dictionary_size() as u64).to_le_bytes());
     o.extend_from_slice(&(d.config().min_pattern_length as u64).to_le_bytes());
     o.extend_from_slice(&(d.config().max_pattern_length as u64).to_le_bytes());
-    o.extend_from_slice(d.dictionary_text());
+    o.push(d.is_external_mode() as u8);
+    let text = d.dictionary_text().to_vec();
+    o.extend_from_slice(&text);
+    let mut probes: Vec<Vec<u8>> = vec![b"#### no such text ####".to_vec()];
+    for i in 0..6usize {
+        let a = (i * 131) % text.len().max(1);
+        let e = (a + 5 + 3 * i).min(text.len());
+        probes.push(text[a..e].to_vec());
+    }
+    for p in &probes {
+        match d.find_longest_match(p, 0, 64) {
+            Ok(Some(m)) => {
+                // the matched text is the answer (the position in the dictionary may be any occurrence)
+                o.push(1);
+                o.extend_from_slice(&(m.length as u64).to_le_bytes());
+                let e = (m.dict_position + m.length).min(text.len());
+                o.extend_from_slice(text.get(m.dict_position.min(e)..e).unwrap_or(&[]));
+            }
+            Ok(None) => o.push(0),
+            Err(_) => o.push(2),
+        }
+        match d.find_all_matches(p, 1000) {
+            Ok(v) => o.extend_from_slice(&(v.len() as u64).to_le_bytes()),
+            Err(_) => o.push(2),
+        }
+    }
     o
+}
+
+fn dz_cfg() -> zipora::blob_store::DictZipConfig {
+    use zipora::compression::dict_zip::DictionaryBuilderConfig;
+    zipora::blob_store::DictZipConfig {
+        dict_builder_config: DictionaryBuilderConfig { target_dict_size: 4096, max_dict_size: 16384, validate_result: false, ..Default::default() },
+        min_compression_size: 10,
+        ..Default::default()
+    }
+}
+/// content of a DictZipBlobStore built around a dictionary file: what it returns for probe records
+fn dzstore_content(st: &mut zipora::blob_store::DictZipBlobStore) -> Vec<u8> {
+    let mut o = Vec::new();
+    let probes: [&[u8]; 4] = [b"", b"x", b"the quick brown fox jumps over the lazy dog, the quick brown fox", &[7u8; 300]];
+    for p in probes {
+        match st.put(p) {
+            Ok(id) => match st.get(id) {
+                Ok(d) => {
+                    o.push(1);
+                    o.extend_from_slice(&(d.len() as u64).to_le_bytes());
+                    o.extend_from_slice(&d);
+                }
+                Err(_) => o.push(2),
+            },
+            Err(_) => o.push(3),
+        }
+    }
+    o.extend_from_slice(&(st.len() as u64).to_le_bytes());
+    o
+}
+
+fn dzstore_read(p: &Path) -> Reopened {
+    let mut st = zipora::blob_store::DictZipBlobStore::from_dictionary_file(p, dz_cfg()).map_err(es)?;
+    let mut o = dzstore_content(&mut st);
+    // replacing the dictionary of a live store by the same file: an empty store that answers alike
+    st.load_dictionary(p).map_err(es)?;
+    o.extend_from_slice(&dzstore_content(&mut st));
+    Ok((o, None))
 }
 
 impl Subject for DzDict {
@@ -720,7 +1182,7 @@ impl Subject for DzDict {
         "dzdict"
     }
     fn variant(&self) -> String {
-        "sadict".into()
+        self.0.into()
     }
     fn drive(&self, rng: &mut Rng, rec: &mut Recorder, _big: bool) {
         let path = rec.live.join("dict.bin");
@@ -739,6 +1201,25 @@ impl Subject for DzDict {
                 train.push(b' ');
             }
             train.truncate(tlen);
+            if self.0 == "store" {
+                let mut b = match zipora::blob_store::DictZipBlobStoreBuilder::with_config(dz_cfg()) {
+                    Ok(b) => b,
+                    Err(_) => return,
+                };
+                for ch in train.chunks(97) {
+                    let _ = b.add_training_sample(ch);
+                }
+                let mut st = match b.finish() {
+                    Ok(s) => s,
+                    Err(_) => return,
+                };
+                let ok = st.save_dictionary(&path).is_ok();
+                // what a store around this dictionary file answers (read back through the public API)
+                let c = dzstore_read(&path).ok().map(|x| x.0);
+                let _ = dzstore_content(&mut st);
+                rec.snap("save_dictionary", ok && c.is_some(), c, vec![8]);
+                continue;
+            }
             let cfg = SuffixArrayDictionaryConfig {
                 min_frequency: 2,
                 max_bfs_depth: 3,
@@ -747,17 +1228,32 @@ impl Subject for DzDict {
                 min_pattern_length: min_pat,
                 ..Default::default()
             };
-            let d = match SuffixArrayDictionary::new(&train, cfg) {
+            let mut d = match SuffixArrayDictionary::new(&train, cfg) {
                 Ok(d) => d,
                 Err(_) => return,
             };
-            let ok = d.save_to_file(&path).is_ok();
-            rec.snap("save", ok, Some(dict_content(&d)), vec![8]);
+            let ok = if self.0 == "serde" {
+                d.serialize().ok().map(|b| fs::write(&path, b).is_ok()).unwrap_or(false)
+            } else {
+                d.save_to_file(&path).is_ok()
+            };
+            rec.snap("save", ok, Some(dict_content(&mut d)), vec![8]);
         }
     }
     fn reopen(&self, dir: &Path) -> Reopened {
-        let d = SuffixArrayDictionary::load_from_file(dir.join("dict.bin")).map_err(es)?;
-        Ok((dict_content(&d), None))
+        let p = dir.join("dict.bin");
+        match self.0 {
+            "store" => dzstore_read(&p),
+            "serde" => {
+                let bytes = fs::read(&p).map_err(es)?;
+                let mut d = SuffixArrayDictionary::deserialize(&bytes).map_err(es)?;
+                Ok((dict_content(&mut d), None))
+            }
+            _ => {
+                let mut d = SuffixArrayDictionary::load_from_file(&p).map_err(es)?;
+                Ok((dict_content(&mut d), None))
+            }
+        }
     }
 }
 
@@ -772,11 +1268,18 @@ fn subjects() -> Vec<Box<dyn Subject>> {
         Box::new(ZipOff("raw")),
         Box::new(ZipOff("crc")),
         Box::new(ZipOff("zstd")),
+        Box::new(ZipOff("perf")),
+        Box::new(ZipOff("comp")),
+        Box::new(ZipOff("writer")),
         Box::new(Reorder("asc")),
         Box::new(Reorder("desc")),
         Box::new(IoMmap("mmo")),
+        Box::new(IoMmap("mmo-zc")),
+        Box::new(IoMmap("mmo-peek")),
         Box::new(IoMmap("fdo")),
-        Box::new(DzDict),
+        Box::new(DzDict("sadict")),
+        Box::new(DzDict("serde")),
+        Box::new(DzDict("store")),
     ]
 }
 
@@ -824,7 +1327,7 @@ fn mix(old: &[u8], new: &[u8], s: &[usize], len: usize, bs: usize) -> Vec<u8> {
 fn materialise(kind: &str, j: usize, len: usize, old: &[u8], new: &[u8], bs: usize) -> Option<Vec<u8>> {
     let c = changed_blocks(old, new, bs);
     Some(match kind {
-        "intact" => new.to_vec(),
+        "intact" | "resume" => new.to_vec(),
         "truncate" => new.get(..j)?.to_vec(),
         "mixture" => mix(old, new, c.get(..j)?, len, bs),
         "rollback" => {
@@ -929,9 +1432,11 @@ fn mode_drive(a: &Args) {
                     let c = if has_new { changed_blocks(&old, &nb, bs) } else { vec![] };
                     let sh = json!({
                         "run": run, "k": k, "f": f, "has_new": has_new, "intact": first,
-                        "trunc": has_new && prev.as_ref() != Some(&nb), "dense": dense,
+                        "trunc": has_new && prev.as_ref() != Some(&nb),
+                        "dense": dense || (is_sync && nb.len() <= s.dense_small_files()),
                         "old_len": old.len(), "new_len": nb.len(), "nch": c.len(),
                         "hdr_changed": c.first() == Some(&0), "bounds": rec.bounds[k - 1], "inplace": inplace,
+                        "resume": first && is_sync && rec.points[k - 1]["valid"] == json!(true),
                     });
                     writeln!(shapes, "{}", sh).unwrap();
                     nshapes += 1;
@@ -1032,8 +1537,31 @@ fn mode_child(a: &Args) {
             }
         }
         // (the undamaged image of a snapshot in which the file does not exist has no such file)
-        if !f.is_empty() && (kind != "intact" || dk.join(&f).exists()) {
+        if !f.is_empty() && ((kind != "intact" && kind != "resume") || dk.join(&f).exists()) {
             fs::write(img_dir.join(&f), &bytes).expect("write image");
+        }
+        if kind == "resume" {
+            append_line(&res, &json!({"i": i, "begin": true}));
+            CUR_IDX.store(i, Ordering::SeqCst);
+            CUR_START_MS.store(now_ms(), Ordering::SeqCst);
+            let modes = subj.modes();
+            let mode = modes[k % modes.len()];
+            let mut rng = Rng::new(spec["seed"].as_u64().unwrap_or(1)).derive(&format!("resume#{k}"));
+            let r = guard(|| subj.resume(&img_dir, mode, &mut rng));
+            CUR_START_MS.store(0, Ordering::SeqCst);
+            let zero = json!({"len": 0, "h": [0, 0]});
+            let line = match r {
+                Ok(Ok(x)) => json!({"i": i, "outcome": "resume", "open": "ok", "mode": x.mode, "writable": x.writable,
+                    "has_ids": x.has_ids, "c0": digest(&x.c0), "ids0": ids_json(&x.ids0), "new_ids": ids_json(&x.new_ids),
+                    "len0": x.len0, "len1": x.len1, "added": x.added, "old0": digest(&x.old0), "old1": digest(&x.old1),
+                    "live": digest(&x.live), "again_open": if x.again.is_ok() { "ok" } else { "err" },
+                    "again": x.again.as_ref().map(|c| digest(c)).unwrap_or(zero.clone()),
+                    "msg": x.again.err().unwrap_or_default()}),
+                Ok(Err(msg)) => json!({"i": i, "outcome": "resume", "open": "err", "mode": mode, "msg": msg}),
+                Err(msg) => json!({"i": i, "outcome": "resume", "open": "panic", "mode": mode, "msg": msg}),
+            };
+            append_line(&res, &line);
+            continue;
         }
         let flen = new.len();
         CLAIM.store(u64::MAX, Ordering::SeqCst);
@@ -1089,7 +1617,7 @@ fn run_slice(run: &Value, items: &[Item], slice_no: usize, out: &Path, limit_ms:
         let res_p = out.join(format!("slice-{slice_no}-{attempt}.res"));
         let _ = fs::remove_file(&res_p);
         let spec = json!({
-            "subject": run["subject"], "dir": run["dir"], "bs": run["bs"], "slice": slice_no, "limit_ms": limit_ms,
+            "subject": run["subject"], "dir": run["dir"], "bs": run["bs"], "slice": slice_no, "limit_ms": limit_ms, "seed": run["seed"],
             "items": part.iter().map(|x| json!({"i": x.i, "k": x.k, "base": x.base, "f": x.f, "kind": x.kind, "j": x.j, "len": x.len})).collect::<Vec<_>>(),
         });
         fs::write(&spec_p, spec.to_string()).expect("write slice spec");
@@ -1237,6 +1765,21 @@ fn mode_images(a: &Args) {
             };
             let outcome = r["outcome"].as_str().unwrap_or("signal").to_string();
             let zero = json!({"len": 0, "h": [0, 0]});
+            if it.kind == "resume" {
+                // continuation of the undamaged sync image k: one event carrying everything observed
+                let open = if outcome == "resume" { r["open"].as_str().unwrap_or("err").to_string() } else { outcome.clone() };
+                let g = |f: &str, d: Value| r.get(f).cloned().unwrap_or(d);
+                tr.ev(json!({"op": "resume", "k": it.k, "open": open, "mode": g("mode", json!("")),
+                    "writable": g("writable", json!(false)), "has_ids": g("has_ids", json!(false)),
+                    "c0": g("c0", zero.clone()), "ids0": g("ids0", json!([])), "new_ids": g("new_ids", json!([])),
+                    "len0": g("len0", json!(0)), "len1": g("len1", json!(0)), "added": g("added", json!(0)),
+                    "old0": g("old0", zero.clone()), "old1": g("old1", zero.clone()), "live": g("live", zero.clone()),
+                    "again_open": g("again_open", json!("err")), "again": g("again", zero.clone()), "msg": g("msg", json!(""))}));
+                *sum.entry(format!("resume/{}/{}", r["mode"].as_str().unwrap_or("?"), open)).or_default() += 1;
+                *sum.entry("images".into()).or_default() += 1;
+                nontrivial.insert((name.to_string(), *run, it.k, it.f.clone(), it.kind.clone(), it.j, it.len));
+                continue;
+            }
             tr.ev(json!({"op": "image", "kind": it.kind, "k": it.k, "j": it.j, "len": r.get("len").cloned().unwrap_or(json!(it.len)),
                 "upto": it.k, "base": it.base, "f": it.f, "raw": r.get("raw").cloned().unwrap_or(zero.clone()),
                 "flen": r.get("flen").cloned().unwrap_or(json!(it.flen))}));
